@@ -101,12 +101,14 @@ impl SchedulerCore {
 
             // Signal any waiting condition variables
             core.wake_blocked.iter_mut()
-                .for_each(|cond_var| {
-                    if let Some(cond_var) = cond_var.upgrade() {
+                .for_each(|(cond_var, waiting)| {
+                    if let (Some(cond_var), Some(waiting)) = (cond_var.upgrade(), waiting.upgrade()) {
+                        // The flag is set under the waiter's mutex so the notification is not lost if the waiter is not waiting yet
+                        waiting.lock().expect("Background wait lock").rescheduled = true;
                         cond_var.notify_one();
                     }
                 });
-            core.wake_blocked.retain(|cond_var| cond_var.strong_count() > 0);
+            core.wake_blocked.retain(|(cond_var, _)| cond_var.strong_count() > 0);
 
             match core.state {
                 QueueState::Idle => {
